@@ -317,7 +317,22 @@ impl<'c, 's> Run<'c, 's> {
         let bl = self.body_len(249 - hl);
         let body = self.rand_fill(bl);
         let half = self.ch.choose(2) as u8;
-        let call = Call::Spdm { dest, secured, hdr, body, half };
+        // one call in four goes to the trait's packet generators directly
+        let call = match self.ch.choose(4) {
+            3 => {
+                let kind = self.ch.choose(3) as u8;
+                let hdr = if kind == 0 {
+                    // control: Rq set, a command without fixed request length
+                    let cmd = [0x0Bu8, 0x0C, 0x0D, 0x11, 0x05, 0x03][self.ch.choose(6) as usize];
+                    Some(vec![0x80, cmd])
+                } else {
+                    hdr
+                };
+                self.st.probe("trait-packet-generator-called-directly");
+                Call::Raw { kind, dest, hdr, body, half }
+            }
+            _ => Call::Spdm { dest, secured, hdr, body, half },
+        };
         if let Some(f) = self.encode(ni, &call) {
             self.push_frame(f);
         }
@@ -1061,6 +1076,8 @@ pub fn api_family(api: &str) -> &'static str {
         "vendor"
     } else if api.starts_with("generate_spdm") {
         "spdm"
+    } else if api.starts_with("generate_") {
+        "trait-generator"
     } else if api.starts_with("resp.") {
         "control-response"
     } else {
